@@ -65,6 +65,16 @@ def assign_facts(fi: FunctionInfo, target: str, keep: tuple[str, ...] = ()) -> s
         if isinstance(n, (ast.Assign, ast.AnnAssign)) and getattr(n, "value", None) is not None:
             tl = n.targets if isinstance(n, ast.Assign) else [n.target]
             if any(unparse(t) == target for t in tl):
+                v = n.value
+                if isinstance(v, ast.Name):
+                    # a local that several branches bind (`t = a` / `t = b`, then `target = t`): its bindings, each under its own conditions
+                    binds = [a for a in walk_no_nested(fn, include_root=False) if isinstance(a, (ast.Assign, ast.AnnAssign)) and getattr(a, "value", None) is not None
+                             and any(isinstance(t, ast.Name) and t.id == v.id for t in (a.targets if isinstance(a, ast.Assign) else [a.target]))]
+                    if len(binds) > 1:
+                        for a in binds:
+                            for text, extra in _split_ifexp(fn, a.value, keep + (target,)):  # type: ignore[arg-type]
+                                out.add((text, frozenset(_conds(g, g.node_of(a), fn, keep) | _conds(g, g.node_of(n), fn, keep) | extra)))
+                        continue
                 for text, extra in _split_ifexp(fn, n.value, keep + (target,)):  # type: ignore[arg-type]
                     out.add((text, frozenset(_conds(g, g.node_of(n), fn, keep) | extra)))
     return out
